@@ -4,6 +4,7 @@ import (
 	"bytes"
 	"encoding/json"
 	"fmt"
+	"strings"
 	"time"
 
 	"github.com/brutella/hc/accessory"
@@ -252,6 +253,7 @@ func c14WellFormed(j []byte) string {
 }
 
 func c14Run(c *fw.Ctx) {
+	c14Histories(c)
 	tmpls := c14Templates()
 	idAlpha := []uint64{0, 1, 2, 3, 7}
 	idx := 0
@@ -492,6 +494,12 @@ func init() {
 		Replay: func(c *fw.Ctx, raw json.RawMessage) {
 			var cas c14Case
 			json.Unmarshal(raw, &cas)
+			for _, op := range c14Ops {
+				if len(cas.Tmpls) > 0 && cas.Tmpls[0] == op {
+					c14History1(c, cas.Tmpls, true)
+					return
+				}
+			}
 			all := c14Templates()
 			var tm []c14Tmpl
 			for _, n := range cas.Tmpls {
@@ -510,4 +518,159 @@ func init() {
 		Budget:      func(string) time.Duration { return 15 * time.Minute },
 		Assumptions: []string{"constructors that panic are C15's business and are skipped here", "the attribute database is json.Marshal of the container, which is what the /accessories handler writes"},
 	})
+}
+
+// ---------------------------------------------------------------------------------------------------------------
+// Operation histories over one container: every sequence of construction operations up to a depth, the container
+// invariants after every operation, and the same history replayed on fresh objects must give the same database.
+
+var c14Ops = []string{"add(A)", "add(B)", "add(C#2)", "remove(A)", "remove(B)", "A.AddService(S1)", "A.AddService(S2)", "B.AddService(S3)", "S1.AddLinkedService(S2)", "S2.AddLinkedService(S1)"}
+
+type c14World struct {
+	cont    *accessory.Container
+	acc     map[string]*accessory.Accessory
+	svc     map[string]*service.Service
+	frozen  map[string]bool // accessory was handed to a container once: its construction phase is over
+	hasSvc  map[string]bool // "A/S1": the application added this service to this accessory
+	members map[string]bool // the model's member set
+	links   [][2]string     // links the application made
+}
+
+func c14NewWorld() *c14World {
+	w := &c14World{cont: accessory.NewContainer(), acc: map[string]*accessory.Accessory{}, svc: map[string]*service.Service{}, frozen: map[string]bool{}, hasSvc: map[string]bool{}, members: map[string]bool{}}
+	w.acc["A"] = accessory.New(accessory.Info{Name: "A"}, accessory.TypeOther)
+	w.acc["B"] = accessory.New(accessory.Info{Name: "B"}, accessory.TypeOther)
+	w.acc["C#2"] = accessory.New(accessory.Info{Name: "C", ID: 2}, accessory.TypeOther)
+	w.svc["S1"] = service.NewSwitch().Service
+	w.svc["S2"] = service.NewOutlet().Service
+	w.svc["S3"] = service.NewLightbulb().Service
+	return w
+}
+
+// apply executes one operation if the model enables it (a service is added to an accessory at most once and only
+// while the accessory is under construction); it reports whether the operation was executed.
+func (w *c14World) apply(op string) bool {
+	switch {
+	case strings.HasPrefix(op, "add("):
+		n := op[4 : len(op)-1]
+		w.frozen[n] = true
+		if w.cont.AddAccessory(w.acc[n]) == nil {
+			w.members[n] = true
+		}
+	case strings.HasPrefix(op, "remove("):
+		n := op[7 : len(op)-1]
+		w.cont.RemoveAccessory(w.acc[n])
+		delete(w.members, n)
+	case strings.Contains(op, ".AddService("):
+		a, s := op[:1], op[len(op)-3:len(op)-1]
+		if w.frozen[a] || w.hasSvc[a+"/"+s] {
+			return false
+		}
+		w.hasSvc[a+"/"+s] = true
+		w.acc[a].AddService(w.svc[s])
+	case strings.Contains(op, ".AddLinkedService("):
+		from, to := op[:2], op[len(op)-3:len(op)-1]
+		if w.frozen["A"] {
+			return false
+		}
+		w.svc[from].AddLinkedService(w.svc[to])
+		w.links = append(w.links, [2]string{from, to})
+	}
+	return true
+}
+
+func c14Histories(c *fw.Ctx) {
+	depth := 4
+	if c.Thorough() {
+		depth = 6
+	}
+	if c.Shard == 0 {
+		c.Extra("history_depth_completed", int64(depth))
+		c.Extra("history_alphabet", int64(len(c14Ops)))
+	}
+	exploreTree(c, len(c14Ops), depth, func(h []int) bool {
+		var hist []string
+		for _, s := range h {
+			hist = append(hist, c14Ops[s])
+		}
+		return c14History1(c, hist, len(h) == depth)
+	})
+}
+
+func c14History1(c *fw.Ctx, hist []string, leaf bool) bool {
+	{
+		cas := c14Case{Tmpls: hist}
+		c.Eval(1)
+		c.State(1)
+		prune := false
+		var j1 []byte
+		if p := guard(func() {
+			w := c14NewWorld()
+			for i, op := range hist {
+				if !w.apply(op) && i == len(hist)-1 {
+					prune = true // the last operation is not enabled: nothing new below this node
+					return
+				}
+			}
+			last := hist[len(hist)-1]
+			sig := last
+			// invariants of the container after the last operation
+			seen := map[uint64]bool{}
+			if len(w.cont.Accessories) != len(w.members) {
+				c.Report("history/member-count/after:"+sig, fmt.Sprintf("after %v the container holds %d accessories, %d were accepted and not removed", hist, len(w.cont.Accessories), len(w.members)), cas)
+				return
+			}
+			for _, a := range w.cont.Accessories {
+				if a.ID == 0 || seen[a.ID] {
+					c.Report("history/aid/after:"+sig, fmt.Sprintf("after %v accessory id %d is zero or held by two accessories", hist, a.ID), cas)
+					return
+				}
+				seen[a.ID] = true
+				iids := map[uint64]bool{}
+				for _, s := range a.Services {
+					if s.ID == 0 || iids[s.ID] {
+						c.Report("history/iid-service/after:"+sig, fmt.Sprintf("after %v accessory %d: service instance id %d is zero or not unique", hist, a.ID, s.ID), cas)
+						return
+					}
+					iids[s.ID] = true
+					for _, ch := range s.Characteristics {
+						if ch.ID == 0 || iids[ch.ID] {
+							c.Report("history/iid-characteristic/after:"+sig, fmt.Sprintf("after %v accessory %d: characteristic instance id %d is zero or not unique", hist, a.ID, ch.ID), cas)
+							return
+						}
+						iids[ch.ID] = true
+					}
+				}
+			}
+			var err error
+			if j1, err = json.Marshal(w.cont); err != nil {
+				c.Report("history/json-error/after:"+sig, err.Error(), cas)
+				return
+			}
+			dangling := false // the application linked a service of A to one it never added to A: its own mistake
+			for _, l := range w.links {
+				dangling = dangling || (w.hasSvc["A/"+l[0]] && !w.hasSvc["A/"+l[1]])
+			}
+			if why := c14WellFormed(j1); why != "" && len(w.cont.Accessories) > 0 && !(why == "linked-id-unknown" && dangling) {
+				c.Report("history/malformed/"+why+"/after:"+sig, fmt.Sprintf("after %v the attribute database JSON is malformed: %s", hist, why), cas)
+				return
+			}
+			// the same history on fresh objects (a restart)
+			w2 := c14NewWorld()
+			for _, op := range hist {
+				w2.apply(op)
+			}
+			j2, _ := json.Marshal(w2.cont)
+			if !bytes.Equal(j1, j2) {
+				c.Report("history/unstable/after:"+sig, fmt.Sprintf("the history %v executed twice on fresh objects yields different attribute databases", hist), cas)
+			}
+		}); p != nil {
+			c.Report("history/panic/after:"+hist[len(hist)-1], fmt.Sprintf("%v panics: %v", hist, p), cas)
+			return true
+		}
+		if leaf {
+			c.Class(fmt.Sprintf("history/bytes=%d", len(j1)/400))
+		}
+		return prune
+	}
 }
